@@ -353,7 +353,7 @@ func TreeKey(root string) (string, int, error) {
 			return nil
 		}
 		n := info.Name()
-		if !(strings.HasSuffix(n, ".go") || n == "go.mod" || n == "go.sum") {
+		if !(strings.HasSuffix(n, ".go") || strings.HasSuffix(n, ".y") || n == "go.mod" || n == "go.sum") {
 			return nil
 		}
 		f, err := os.Open(path)
